@@ -294,7 +294,7 @@ MANIFEST_TEXT = {
         level_note="Trusted: harness scheduler; reference compile. Races on shared objects are not visible to engine B; a missing defensive copy shows as a changed snapshot.",
     ),
     "C07": dict(
-        technique="deterministic simulation with fault injection: seeded fault plans on the Resolver/io.Reader/context seams x seeded schedules (engine B)",
+        technique="deterministic simulation with fault injection: seeded fault plans on the Resolver/io.Reader/context seams x seeded schedules (engine B; two builds: real and simulator-visible mutexes)",
         design_ref="DESIGN.md 3.3",
         level_text="Seeded enumeration of fault plans (which resolver call or which byte of which file fails or panics, when the "
                    "context is cancelled) crossed with seeded interleavings; oracles: the call returns within a decision budget, the "
@@ -303,7 +303,7 @@ MANIFEST_TEXT = {
         level_note="Trusted: harness scheduler, synctest quiescence and leak detection, fault stubs. Sampling of plans and schedules, not exhaustive.",
     ),
     "C06": dict(
-        technique="deterministic simulation: seeded schedule search (engine B) with a graph-model oracle and bounded-step liveness",
+        technique="deterministic simulation: seeded schedule search (engine B; two builds: real and simulator-visible mutexes) with a graph-model oracle and bounded-step liveness",
         design_ref="DESIGN.md 3.2",
         level_text="Seeded exploration of task interleavings around blocked-on publication, dependency creation, cycle checks and "
                    "semaphore release/re-acquire over random import digraphs; the oracle is a reachability/SCC model plus "
@@ -311,7 +311,7 @@ MANIFEST_TEXT = {
         level_note="Trusted: harness scheduler and synctest quiescence; cycle-path validation parses the error text. Sampling only.",
     ),
     "C05": dict(
-        technique="deterministic simulation: seeded schedule search (engine B) against an unsimulated sequential reference compile",
+        technique="deterministic simulation: seeded schedule search (engine B; two builds: real mutexes, and simulator-visible mutexes so that goroutines are also parked inside critical sections) against an unsimulated sequential reference compile",
         design_ref="DESIGN.md 3.1",
         level_text="Seeded exploration of goroutine interleavings (serialising scheduler over yield hooks at every lock acquisition, "
                    "publication and blocking operation of compiler.go and linker/symbols.go) x MaxParallelism x request permutations x "
